@@ -11,6 +11,7 @@ import (
 
 func init() {
 	gldap.VReg("H_TD_C19_bind", H_TD_C19_bind)
+	gldap.VReg("H_TD_C19_bind3", H_TD_C19_bind3)
 }
 
 type vT struct{}
@@ -26,10 +27,14 @@ func vUsers(n int) []*gldap.Entry {
 	for i := 0; i < k; i++ {
 		un := fmt.Sprintf("u%d", i)
 		e := &gldap.Entry{DN: gldap.VStr(un + ".dn")}
-		na := gldap.VLen(un+".nattrs", 2)
+		maxA, maxV := 2, 2
+		if vSmall && i > 0 {
+			maxA, maxV = 1, 1 // quick tier: only the first user has the full shape
+		}
+		na := gldap.VLen(un+".nattrs", maxA)
 		for j := 0; j < na; j++ {
 			an := fmt.Sprintf("%s.a%d", un, j)
-			nv := gldap.VLen(an+".nvals", 2)
+			nv := gldap.VLen(an+".nvals", maxV)
 			vals := []string{gldap.VStr(an + ".v0"), gldap.VStr(an + ".v1")}[:nv]
 			e.Attributes = append(e.Attributes, &gldap.EntryAttribute{Name: gldap.VStr(an + ".name"), Values: vals})
 		}
@@ -61,8 +66,13 @@ func bindShouldSucceed(users []*gldap.Entry, anon bool, dn, pw string) bool {
 }
 
 // C19: a bind succeeds iff anonymous-and-allowed or the exact DN with the right first password value.
-func H_TD_C19_bind() {
-	users := vUsers(3)
+var vSmall bool
+
+func H_TD_C19_bind()  { vSmall = true; vBind(2) }
+func H_TD_C19_bind3() { vBind(3) }
+
+func vBind(maxUsers int) {
+	users := vUsers(maxUsers)
 	anon := gldap.VBool("allowAnonymous")
 	d := &Directory{t: vT{}, logger: hclog.NewNullLogger(), users: users, allowAnonymousBind: anon}
 	dn, pw := gldap.VStr("bindDN"), gldap.VStr("password")
